@@ -10,6 +10,7 @@ package ptr
 import (
 	"bytes"
 	"fmt"
+	"io"
 	"os"
 	"os/exec"
 	"path/filepath"
@@ -161,9 +162,9 @@ type Result struct {
 }
 
 type threadState struct {
-	inSyscall bool
-	cur       *Event // event being executed by this thread (between entry and exit)
-	fail      syscall.Errno
+	inSyscall  bool
+	cur        *Event // event being executed by this thread (between entry and exit)
+	fail       syscall.Errno
 	killAtExit bool
 }
 
@@ -307,14 +308,20 @@ out:
 	if time.Now().After(deadline) && !res.Killed {
 		res.TimedOut = true
 	}
-	// drain marker pipe
+	// drain marker pipe: the tracee is gone, so all write ends are closed and the read ends with EOF.
+	// The deadline is a safety net only; it must be generous, because a deadline that has already
+	// expired when Read is called (scheduling delays on a loaded machine) makes Read return without
+	// delivering the data that is waiting in the pipe, which would silently drop the marker log.
 	var buf bytes.Buffer
-	pr.SetReadDeadline(time.Now().Add(100 * time.Millisecond))
+	pr.SetReadDeadline(time.Now().Add(60 * time.Second))
 	tmp := make([]byte, 65536)
 	for {
 		n, err := pr.Read(tmp)
 		buf.Write(tmp[:n])
 		if err != nil {
+			if err != io.EOF && res.Err == nil {
+				res.Err = fmt.Errorf("draining the marker pipe: %w", err)
+			}
 			break
 		}
 	}
